@@ -288,11 +288,11 @@ func runRTCase(t *testing.T, ops []regOp) (coq string, problems []string, flags 
 		}
 
 		var (
-			items   []string
-			probesR = map[string]*probeR{}
-			probesQ = map[string]*probeQC{}
-			started bool
-			done    = make(chan error, 1)
+			items    []string
+			probesR  = map[string]*probeR{}
+			probesQ  = map[string]*probeQC{}
+			started  bool
+			done     = make(chan error, 1)
 			accepted = map[string]bool{}
 		)
 
